@@ -12,7 +12,7 @@ ANCHORS = [
     "sktime/utils/validation/forecasting.py",
 ]
 RULE = (
-    "full product splitter {expanding, sliding, single} x window x step x fh (non-empty "
+    "full product splitter {expanding, sliding, single, sliding with an initial window} x window x step x fh (non-empty "
     "subsets of {1..3}) x n x strategy {refit, update} x scoring {default sMAPE, "
     "MAPE(symmetric=False), asymmetric make_forecasting_scorer, a greater_is_better=True scorer} x forecaster {recording "
     "last/mean, Naive last/mean/drift, PolynomialTrend} x (X, return_data, forecaster already "
@@ -21,7 +21,8 @@ RULE = (
     "clones + leak monitor on the recording forecaster's call log. non-trivial = >=2 folds."
 )
 ASSUMPTIONS = [
-    "the splitter's own split(y) defines the folds (C01 owns the splitters)",
+    "the folds are those of the splitter's definition: split(y) of the splitter handed to "
+    "evaluate is first compared with C01's integer reference model, then used for the honest loop",
     "wall-clock columns (fit_time, pred_time) are not compared",
 ]
 
@@ -32,9 +33,11 @@ SCORINGS = ["default", "mape_asym", "custom_asym", "custom_gib"]
 def gen_cases(tier, seed):
     ns = (8, 10) if tier == "quick" else (8, 9, 10, 11, 13)
     for n in ns:
-        for sk in ("expanding", "sliding", "single"):
+        for sk in ("expanding", "sliding", "single", "sliding_iw"):
             for W in (2, 3, 4):
                 for s in ((1, 2, 3) if sk != "single" else (1,)):
+                    if sk == "sliding_iw" and (W == 4 or tier == "quick" and n == 8):
+                        continue
                     for fh in subsets(range(1, 4)):
                         for strat in ("refit", "update"):
                             for sc in SCORINGS:
@@ -111,6 +114,8 @@ def _mk_cv(case):
         return ExpandingWindowSplitter(fh=fh, initial_window=W, step_length=s)
     if case["splitter"] == "sliding":
         return SlidingWindowSplitter(fh=fh, window_length=W, step_length=s)
+    if case["splitter"] == "sliding_iw":
+        return SlidingWindowSplitter(fh=fh, window_length=W, step_length=s, initial_window=W + 1)
     return SingleWindowSplitter(fh=fh, window_length=W)
 
 
@@ -158,6 +163,22 @@ def run_case(case):
         res.outcome("splitter-rejects")
         return res
     folds = folds.value
+    # "the splits of the splitter" are those of its definition (integer reference model of C01)
+    from ..refs import splitters as sref
+    sk = case["splitter"]
+    if sk == "single":
+        want = sref.single_fold(n, case["fh"], case["W"])
+    else:
+        want = sref.window_folds("expanding" if sk == "expanding" else "sliding", n, case["fh"],
+                                 case["W"], case["s"], True,
+                                 case["W"] + 1 if sk == "sliding_iw" else None)
+    if want is not None:
+        got_f = [([int(v) for v in a], [int(v) for v in b]) for a, b in folds]
+        if got_f != [(a, b) for a, b, _ in want]:
+            res.violate("splits:" + sk, "the splitter handed to evaluate does not yield the "
+                        "splits of its definition", expected=[(a, b) for a, b, _ in want][:4],
+                        observed=got_f[:4])
+            return res
     doubles.reset_log()
     o = call(lambda: evaluate(f, cv, y.copy(), None if X is None else X.copy(),
                               strategy=case["strategy"], scoring=scoring_arg,
